@@ -568,21 +568,19 @@ class Ace(AceBase):
 
     def _shadow_of__srcport(self, other: Ace) -> bool:
         """Return True if self.srcport is in the shadow of the  other.srcport."""
-        if top := set(other.srcport.ports):
-            if bottom := set(self._srcport.ports):
-                diff = bottom.intersection(top)
-                return diff == bottom
+        if not other.srcport.operator:
+            return True
+        if not self._srcport.operator:
             return False
-        return True
+        return set(self._srcport.ports).issubset(other.srcport.ports)
 
     def _shadow_of__dstport(self, other: Ace) -> bool:
         """Return True if self.dstport is in the shadow of the  other.dstport."""
-        if top := set(other.dstport.ports):
-            if bottom := set(self._dstport.ports):
-                diff = bottom.intersection(top)
-                return diff == bottom
+        if not other.dstport.operator:
+            return True
+        if not self._dstport.operator:
             return False
-        return True
+        return set(self._dstport.ports).issubset(other.dstport.ports)
 
     def _shadow_of__option(self, other: Ace) -> bool:
         """Return True if self.dstport is in the shadow of the  other.dstport."""
